@@ -477,6 +477,17 @@ def run(chk):
     windows = [(1, 1, 1, 1, SGP_PARAM, SGP_EPW), (4, 1, 1, 1, SGP_PARAM, SGP_EPW),
                (1, 1, 15, 1, TORONTO_PARAM, OTHER_EPW[0]),
                (4, rnd.randint(1, 12), rnd.randint(1, 27), 1, SGP_PARAM, rnd.choice(OTHER_EPW))]
+    # a saturated rural day (RH = 100 % in every row): wherever the canyon is cooler than the rural
+    # station the canyon RH exceeds 100 % and must be written as it is (moisture is conserved, not capped)
+    import csv as _csv
+    sat = os.path.join(chk.work(), 'saturated.epw')
+    rows_ = list(_csv.reader(open(find_file(*SGP_EPW), newline='', errors='ignore')))
+    for r_ in rows_[8:]:
+        r_[8] = '100'
+        r_[7] = r_[6]
+    with open(sat, 'w', newline='') as f_:
+        _csv.writer(f_, lineterminator='\n').writerows(rows_)
+    windows += [(1, 2, 1, 1, SGP_PARAM, (sat,)), (4, 12, 8, 1, SGP_PARAM, (sat,))]
     if chk.tier == 'thorough':
         windows += [(1, 7, 15, 3, SGP_PARAM, SGP_EPW), (4, 12, 29, 3, SGP_PARAM, SGP_EPW),
                     (2, 3, 30, 2, TORONTO_PARAM, OTHER_EPW[0])]
